@@ -404,6 +404,7 @@ def check(run):
     run.cov["samples"] = [{"request": cases[k], "impl": impl[k][:160], "model_request": mreq[k][:160] if mreq[k] else None,
                            "model": mans.get(k)} for k in pick]
     worker_streams(run, thorough)
+    catable_shape(run, thorough)
     if not ok_proof and not run.violations:
         run.report("proof-obligation", {"stage": "proof"}, {"broken": broken}, broken="; ".join(b[:400] for b in broken), found_input=False)
 
@@ -490,6 +491,60 @@ def worker_streams(run, thorough):
                           "unreadable answer); the hypotheses of C08_multi are not validated on them" % stats["calls_not_run"], found_input=False)
     run.cov["worker_streams"] = stats
     run.note("worker streams: %s" % json.dumps(stats))
+
+
+def catable_shape(run, thorough):
+    """the shape hypothesis of C08_multi (catable_part) on real bytes: catable streams of the real encoder (harness c15,
+    the configuration compress_part gives to later parts) and Concat_length.catable_partb evaluated inside Coq on their
+    first bytes"""
+    okh, logh, exe = vlib.harness_build("c15", "dev")
+    if not okh:
+        run.report("proof-obligation", {"stage": "harness build (c15)"}, {"log": logh[-2000:]},
+                   broken="harness c15 does not build against /repo", found_input=False)
+        return
+    rng = run.rng
+    reqs, wls = [], []
+    for q in (2, 3, 5, 9) + ((10, 11) if thorough else ()):
+        for lw in (0, 1):
+            for lgwin in (10, 13, 15, 16, 17, 18, 20, 22, 24) + ((26, 30) if lw else ()):
+                for inp in ("1:%d" % rng.randrange(1, 1 << 20),) + (("2:%d" % rng.randrange(1, 1 << 20),) if (thorough or rng.random() < 0.25) else ()):
+                    reqs.append("E D %d %d %d 1 1 1 0 0 %s" % (q, lgwin, lw, inp))
+                    wls.append(14 if lw else 1 if lgwin == 16 else 7 if lgwin == 17 or lgwin < 16 else 4)
+    ans = vlib.run_lines(exe, reqs, timeout=1500)
+    items, idx, notrun = [], [], 0
+    for k, a in enumerate(ans):
+        t = a.split()
+        if len(t) < 3 or t[0] != "OK":
+            notrun += 1
+            continue
+        bs = bytes.fromhex(t[1])
+        items.append("(%d, [%s])" % (wls[k], "; ".join(str(b) for b in bs)))
+        idx.append(k)
+    d = os.path.join(vlib.BUILD, "c08_shape")
+    os.makedirs(d, exist_ok=True)
+    open(os.path.join(d, "cases.v"), "w").write(
+        "From Coq Require Import NArith List. Import ListNotations.\nFrom V Require Import proofs.Concat_length.\nOpen Scope N_scope.\n"
+        "Eval vm_compute in map (fun x => Concat_length.catable_partb (fst x) (snd x)) [%s].\n" % ";\n ".join(items))
+    rc, out = vlib.sh("timeout 600 coqc -noglob -Q %s V cases.v 2>&1" % vlib.COQ, cwd=d, timeout=700)
+    flat = " ".join(out.split())
+    verdicts = []
+    if "= [" in flat:
+        verdicts = [x.strip() for x in flat.split("= [", 1)[1].split("]", 1)[0].split(";")]
+    stats = {"streams": len(reqs), "evaluated_in_coq": len(verdicts), "catable_part_true": verdicts.count("true"), "harness_answers_missing": notrun}
+    run.cov["catable_shape"] = stats
+    run.note("catable shape: %s" % json.dumps(stats))
+    if notrun or len(verdicts) != len(items):
+        run.report("proof-obligation", {"stage": "catable shape"}, {"coqc": out[-1500:], "missing": notrun},
+                   broken="the shape hypothesis of C08_multi could not be evaluated on %d of %d real catable streams (harness answers missing: %d; coqc: %s)"
+                          % (len(reqs) - len(verdicts), len(reqs), notrun, out[-200:]), found_input=False)
+        return
+    nrep = 0
+    for k, v in zip(idx, verdicts):
+        if v != "true" and nrep < 3:
+            nrep += 1
+            run.report("correspondence", {"request": reqs[k], "expected_window_field_bits": wls[k]}, {"impl": ans[k][:200], "coq": "catable_partb = " + v},
+                       broken="hypothesis catable_part of C08_multi / C08_concat_saving fails on a real catable stream: `%s` does not begin with a %d-bit window field "
+                              "followed by the 20-bit header of a stored block" % (reqs[k], wls[k]), found_input=False)
 
 
 def replay(path):
